@@ -105,7 +105,7 @@ def generic_call(rnd, driver_route, mode=None, script=None):
         segs = [port_seg(p, l) for p, l in hops]
         if form == "true":
             kw["route_path"] = True
-            it.update({"hasroute": 1, "routesegs": driver_route})
+            it.update({"hasroute": 1, "routesegs": driver_route, "cfgroute": 1})
         elif form == "false":
             kw["route_path"] = False
         elif form == "str":
